@@ -146,6 +146,12 @@ def run(ctx):
                              ("ntf.extracted", "sigint:extracted")):
             add("sigint", pick_files(), {"S4_VERIF_PLAN": "%s:*:0=1500000" % point}, point, 0.3, phase=phase)
         add("sigint", pick_files(), {"S4_VERIF_PLAN": "coord.print:-1:*=300000"}, "print", 0.1, phase="sigint:printing")
+    # a worker that starts only after the handler has run (the printing thread is slow to notice the interrupt, so the
+    # process is still alive when that worker would create its temporary file and it keeps the file for 2 s)
+    for _ in range(ctx.pick(12, 100)):
+        files = rng.sample(inputs, 2)
+        add("sigint", files, {"S4_VERIF_PLAN": "worker.start:1:0=400000;coord.recv:-1:*=300000;ntf.extracted:1:0=2000000"}, "ntf.registered", 0.05,
+            phase="sigint:worker-starts-after-handler")
     # promptness: one worker silent for 8 s right after registering its temp file
     for _ in range(ctx.pick(6, 40)):
         add("sigint", pick_files(), {"S4_VERIF_PLAN": "ntf.registered:*:0=%d" % HOLD_US}, "ntf.registered", 1.0, phase="promptness")
